@@ -48,6 +48,12 @@ var vFieldKinds = []vFieldKind{
 	{decl: "F *float64 `json:\"f,omitempty\"`", wants: []vWant{vw("f", "number", "double")}},
 	{decl: "LL [][]uint32 `json:\"ll\"`", wants: []vWant{{name: "ll", typ: "array", items: &vWant{typ: "array", items: &vWant{typ: "integer", format: "uint32"}}}}},
 	{decl: "N Num `json:\"n\"`", aux: "type Num uint64\n", wants: []vWant{vw("n", "integer", "uint64")}},
+	// a tag spelled as an interpreted string literal
+	{decl: "Dq float64 \"json:\\\"dq,omitempty\\\"\"", wants: []vWant{vw("dq", "number", "double")}},
+	// text marshalers: value receiver, pointer receiver behind a pointer field and as slice element
+	{decl: "At Stamp `json:\"at\"`", aux: "type Stamp struct{ Sec int }\n\nfunc (s Stamp) MarshalText() ([]byte, error) { return nil, nil }\n", wants: []vWant{vw("at", "string", "")}},
+	{decl: "From *Offset `json:\"from\"`", aux: "type Offset struct{ Sec int }\n\nfunc (o *Offset) MarshalText() ([]byte, error) { return nil, nil }\n", wants: []vWant{vw("from", "string", "")}},
+	{decl: "Marks []*Mark `json:\"marks\"`", aux: "type Mark struct{ Sec int }\n\nfunc (o *Mark) MarshalText() ([]byte, error) { return nil, nil }\n", wants: []vWant{{name: "marks", typ: "array", items: &vWant{typ: "string"}}}},
 }
 
 func vMatches(sw *spec.Swagger, got *spec.Schema, w *vWant) bool {
